@@ -82,6 +82,7 @@ class FnSpec:
         self.optional_anchor = False
         self.rlimit = None
         self.nodecreases = False
+        self.same_as = None     # `file.fns/key`: this (lifted) word carries the contract of that function
         self.word = None        # lift the closure bound to this word name out of the word table `key`
 
 
@@ -140,6 +141,7 @@ def parse_fn_blocks(lines, origin):
                 elif a.startswith('rlimit='): fs.rlimit = int(a[7:])
                 elif a == 'nodecreases': fs.nodecreases = True
                 elif a.startswith('word='): fs.word = a[5:].strip('"')
+                elif a.startswith('same_as='): fs.same_as = a[8:]
                 else: raise AssembleError('%s: bad //@fn option %r' % (fs.origin, a))
             i += 1
             cur = fs.clauses
@@ -533,7 +535,7 @@ def lift_word(src, loc, word, where):
                         stmts.append((line, line, st.strip() + ';'))
             j = c + 1
             continue
-        if toks[j][0] == 'ident' and T(j + 1) == '.' and T(j + 2) == 'defword' and T(j + 3) == '(':
+        if toks[j][0] == 'ident' and T(j + 1) == '.' and T(j + 2) in ('defword', 'def_immediate') and T(j + 3) == '(':
             c = match_close(body, toks, j + 3)
             stmts.append((src.line_of(base + toks[j][1]), src.line_of(base + toks[c][2]), body[toks[j][1]:toks[c][2]] + '?;'))
             j = c + 1
@@ -543,7 +545,7 @@ def lift_word(src, loc, word, where):
     for (l0, l1, st) in stmts:
         tk = code_tokens(st)
         S = lambda k: st[tk[k][1]:tk[k][2]]
-        if len(tk) < 6 or S(1) != '.' or S(2) != 'defword' or S(3) != '(':
+        if len(tk) < 6 or S(1) != '.' or S(2) not in ('defword', 'def_immediate') or S(3) != '(':
             continue
         c = match_close(st, tk, 3)
         # first argument: a string literal or concat!(..)
@@ -594,6 +596,16 @@ def expand_fn(fs, assumed_override=False, notes=None):
         raise AssembleError('anchor lost: %s' % e)
     orig = src.text[loc['start']:loc['end']]
     deltas = []
+    if fs.same_as is not None and not fs.clauses:
+        cfile, ckey = fs.same_as.split('/', 1)
+        cf = load_contracts(cfile)
+        if ckey not in cf:
+            raise AssembleError('%s: same_as: no contract %s in %s' % (fs.origin, ckey, cfile))
+        cl = list(cf[ckey].clauses)
+        if parse_key(ckey)[0] is not None:      # a method: its contract speaks about `self`
+            cl = [re.sub(r'\bself\b', 'xs', c) for c in cl]
+        fs.clauses = cl
+        fs.ret = cf[ckey].ret
     if fs.word is not None:
         where0 = '%s %s' % (fs.src, fs.key)
         orig, l0, l1, stmt = lift_word(src, loc, fs.word, where0)
